@@ -50,6 +50,16 @@ def eval_program(arg) -> dict:
         for mech, detail in viols:
             out['violations'].append({'mechanism': mech, 'detail': detail, 'case': case,
                                       'files': {'script.txt': script}})
+    nested = scripts.nested_script(prog)
+    if 'nest ' in nested:
+        log = progrun.run_and_collect(prog, nested, 'plain', 'nested_plain', out, case)
+        if log is not None:
+            viols, counts = tracecheck.check_nested(log, meta, nested)
+            for key, val in counts.items():
+                out['counts'][key] = out['counts'].get(key, 0) + val
+            for mech, detail in viols:
+                out['violations'].append({'mechanism': mech, 'detail': detail, 'case': case,
+                                          'files': {'script.txt': nested}})
     out['counts']['programs'] = 1
     out['counts']['programs_multiclient'] = 1 if case['cfg'].get('multiclient') else 0
     shared = len({v['itf'] for v in case['ports'].values()}) < len(case['ports'])
@@ -64,7 +74,8 @@ def main(tier: str) -> int:
     n = 12 if tier == 'quick' else 500
     run.require('stimuli', 'arrivals', 'args_compared', 'returns_compared', 'programs',
                 'programs_multiclient', 'programs_with_ports_sharing_an_interface',
-                'programs_with_same_named_externs_in_unrelated_namespaces')
+                'programs_with_same_named_externs_in_unrelated_namespaces',
+                'nested_out_events_raised', 'nested_out_events_to_the_claim_holder')
     scratch = run.scratch()
     progrun.drive(run, eval_program, [(run.seed, i, scratch, tier) for i in range(n)])
     return run.finish(
